@@ -116,7 +116,8 @@ histories = st.fixed_dictionaries({
     "state": st.sampled_from(["connected", "connected", "connected", "temp", "client-disconnected", "client-disconnecting"]),
     "traffic": st.lists(traffic_tick, min_size=1, max_size=8),
     "link": scen.link_specs(max_loss=0.2, outages=False),
-    "attacks": st.lists(st.tuples(st.integers(0, 6), attack).map(list), min_size=4, max_size=30),
+    "attacks": st.lists(st.tuples(st.integers(0, 6), attack).map(list), min_size=4, max_size=40),
+    "quiet": st.sampled_from([0.0, 0.0, 1.3, 2.5]),     # the honest client is not heard by the server for that long while the attacks arrive
 })
 
 
@@ -425,6 +426,13 @@ def hist_body(ctx, c):
                     uid += 1
                     scen.do_send(w, ch, side, scen.resolve_size(sspec), retry, uid)
                 w.step(0.02)
+        if c.get("quiet") and c["state"] == "connected":
+            # a one-way outage shorter than the 5 s liveness timeout: the session is quiet on the server side but alive
+            t_q = w.clock.t
+            qd = c["quiet"]
+            base_policy = link
+            w.net.policy = lambda em: [] if (em.to_server and em.src == ch.laddr and w.clock.t - t_q < qd) else base_policy(em)
+            w.run(min(qd, 1.2))
         closing = c["state"] in ("client-disconnected", "client-disconnecting")
         if closing:
             # the client endpoint keeps its key after its status left CONNECTED: it must keep discarding forgeries
